@@ -17,7 +17,7 @@ func podGroupsEqual(oldPodGroup, newPodGroup *enginev2alpha2.PodGroup) bool {
 }
 
 func mapsEqualBySourceKeys(source, target map[string]string) bool {
-	if source != nil && target == nil {
+	if len(source) > 0 && target == nil {
 		return false
 	}
 
